@@ -973,7 +973,6 @@ static int apply(int op) {
     e = VF_CATCH(rem(CA, valobj[nvals]));
     return fail_end(e, ValueError, KeyError, KeyError, "rem of an element that was never stored");
   case T_F_NULLIDX:
-    if (o->a != FO_PUSHAT && n == 0) { /* still must fail: NULL is no index */ }
     setop("%s/NULL-index", FON[o->a]);
     el = elem(kindA, 0);
     fail_begin();
